@@ -32,14 +32,28 @@ type rendered struct {
 	tokOff  []int // byte offset of the keyword
 }
 
-// layout options for rendering (C08 varies them; default is the canonical form).
+// layout options for rendering: the choices the language defines as insignificant
+// (property C08).  The zero value is the canonical form.
 type layout struct {
-	indent   string // per nesting level (cosmetic only)
+	indent   string // the same prefix on every line (uniform re-indentation)
 	nl       string
 	trailing string // appended to every header line
+	rng      *rng   // when set: blank lines, '#' and '###' comments before directives, trailing comments
+	quote    bool   // quote every bare parameter
+	mlAnn    bool   // "/* a */" instead of "// a"
 }
 
-var canon = layout{indent: "", nl: "\n"}
+var canon = layout{nl: "\n"}
+
+// randomLayout draws a layout from the seed.
+func randomLayout(r *rng) layout {
+	lo := layout{nl: []string{"\n", "\r\n", "\r"}[r.intn(3)], rng: r}
+	lo.indent = []string{"", "  ", "\t", "    "}[r.intn(4)]
+	lo.trailing = []string{"", " ", "\t ", ""}[r.intn(4)]
+	lo.quote = r.intn(2) == 0
+	lo.mlAnn = r.intn(2) == 0
+	return lo
+}
 
 // minimal syntactically valid parameters / body for each kind, used when the
 // specification leaves them unspecified (C11 only talks about kinds).
@@ -109,16 +123,43 @@ func renderTokens(toks []Tok, fill bool, lo layout) rendered {
 	var sb strings.Builder
 	r := rendered{}
 	line := 1
-	wr := func(s string) {
-		sb.WriteString(s)
-		sb.WriteString(lo.nl)
-		line += 1 + strings.Count(s, "\n")
+	if lo.nl == "" {
+		lo.nl = "\n"
 	}
+	wr := func(s string) {
+		parts := strings.Split(s, "\n")
+		for _, p := range parts {
+			sb.WriteString(lo.indent)
+			sb.WriteString(p)
+			sb.WriteString(lo.nl)
+			line++
+		}
+	}
+	afterDescription := false
 	for i, t := range toks {
+		// insignificant material between directives
+		if lo.rng != nil && !afterDescription {
+			switch lo.rng.intn(7) {
+			case 0:
+				wr("")
+			case 1:
+				wr("# a comment ## with signs")
+			case 2:
+				wr("###")
+				wr("a block comment # GET /x")
+				wr("###")
+			case 3:
+				wr("")
+				wr("   ")
+			}
+		} else if lo.rng != nil && lo.rng.intn(3) == 0 {
+			wr("")
+		}
 		r.tokLine = append(r.tokLine, line)
 		r.tokOff = append(r.tokOff, sb.Len())
 		if t.T == "C" {
-			wr(")")
+			wr(")" + lo.trailing)
+			afterDescription = false
 			continue
 		}
 		p := renderParams(t)
@@ -131,6 +172,13 @@ func renderTokens(toks []Tok, fill bool, lo layout) rendered {
 			p = fp
 			b = fillerBody(t.K)
 		}
+		if lo.quote {
+			for j := range p {
+				if !strings.HasPrefix(p[j], `"`) {
+					p[j] = strconvQuote(p[j])
+				}
+			}
+		}
 		h := keywordText(t)
 		if t.T == "I" {
 			h = "INCLUDE"
@@ -139,15 +187,24 @@ func renderTokens(toks []Tok, fill bool, lo layout) rendered {
 			h += " " + strings.Join(p, " ")
 		}
 		if t.A != "" {
-			h += " // " + t.A
+			if lo.mlAnn {
+				h += " /* " + t.A + " */"
+			} else {
+				h += " // " + t.A
+			}
 		}
-		wr(h + lo.trailing)
+		h += lo.trailing
+		if lo.rng != nil && t.A == "" && lo.rng.intn(5) == 0 {
+			h += " # trailing comment"
+		}
+		wr(h)
 		if t.E {
 			wr("(")
 		}
 		if b != "" {
 			wr(b)
 		}
+		afterDescription = t.K == "Description"
 	}
 	r.text = sb.String()
 	return r
